@@ -257,25 +257,31 @@ def run_adaptive(case):
     prev = None                                 # previous returned tensor
     prev_org = None
     all_rows = set()
-    undecided = False
-    orig_rand_like = torch.rand_like
+    undecided = unobserved = accepted_malformed = False
+    orig_rand_like, orig_rand = torch.rand_like, torch.rand
     for j, call in enumerate(case["calls"]):
         loss = None if call is None else [Fraction(m, DEN) for m in call["loss"]]
-        us = []
+        us = []           # random draws of the shape of the loss vector made during the call (the per-row thresholds)
+
+        def _thresholds(u):
+            """record (and, if the case prescribes them, replace by the injected dyadic values) a threshold draw"""
+            if call is not None and call.get("u") is not None and tuple(u.shape) == (len(call["u"]),):
+                u = torch.tensor([float(Fraction(v, RDEN)) for v in call["u"]], dtype=u.dtype)
+            us.append(u.detach().clone())
+            return u
 
         def rand_like(x, *a, **k):
-            if call is not None and call.get("u") is not None:
-                u = torch.tensor([float(Fraction(v, RDEN)) for v in call["u"]], dtype=x.dtype)
-                if u.shape != x.shape:      # wrong-length loss: keep the shape of the request
-                    u = orig_rand_like(x, *a, **k)
-            else:
-                u = orig_rand_like(x, *a, **k)
-            us.append(u.detach().clone())
+            return _thresholds(orig_rand_like(x, *a, **k))
+
+        def rand(*a, **k):
+            u = orig_rand(*a, **k)
+            if loss is not None and tuple(u.shape) == (len(loss),):
+                return _thresholds(u)
             return u
 
         before = len(dom.rec_draws)
         try:
-            with mock.patch("torch.rand_like", rand_like):
+            with mock.patch("torch.rand_like", rand_like), mock.patch("torch.rand", rand):
                 if loss is None:
                     out = s.sample_points() if j % 2 else s.sample_points(unreduced_loss=None)
                 else:
@@ -289,13 +295,19 @@ def run_adaptive(case):
         t = out.as_tensor.detach().clone()
         if n0 is None:
             n0 = t.shape[0]
+        if loss is not None and prev is not None and len(loss) != n0:
+            # malformed call (outside the property) that the implementation did not reject, e.g. because a loss vector of
+            # length 1 broadcasts: nothing to judge, the history ends here (the generator puts such a call last)
+            texts.append("err:shape")
+            model_calls.append(_model_call(rnd, loss, [Fraction(0)] * len(loss)))
+            accepted_malformed = True
+            break
         uvals = None
         if rnd and loss is not None and prev is not None:
-            if len(us) != 1:
-                problems.append((j, f"adaptive call {j + 1}: expected one threshold draw per call, saw {len(us)}"))
-                uvals = [Fraction(0)] * len(loss)
+            if us and tuple(us[-1].shape) == (len(loss),):
+                uvals = [Fraction(float(v)) for v in us[-1].tolist()]
             else:
-                uvals = [Fraction(float(v)) for v in us[0].tolist()]
+                unobserved = True      # the per-row thresholds could not be observed: only threshold-free consequences are judged
         model_calls.append(_model_call(rnd, loss, uvals))
         # ---- property oracles
         if t.shape[0] != n0:
@@ -306,47 +318,48 @@ def run_adaptive(case):
         rows = [tuple(r) for r in t.tolist()]
         same = [prev is not None and rows[i] == tuple(prev[i].tolist()) for i in range(n0)]
         draw = dom.rec_draws[-1] if (direct and len(dom.rec_draws) == before + 1 and dom.rec_draws[-1].shape == t.shape) else None
+        # expectation per row: "keep" / "replace" / "either" (not decidable from what was observed)
         if prev is None or loss is None:
-            expect_keep = [False] * n0
-            margin_rows = []
+            expect = ["replace"] * n0
         else:
             lo, hi = min(loss), max(loss)
             ratio = Fraction(case["ratio"]) if not rnd else None
-            expect_keep, margin_rows = [], []
+            expect = []
             for i in range(n0):
+                if rnd and uvals is None:
+                    # thresholds lie in [lo, hi): a row of maximal loss is always kept
+                    expect.append("keep" if loss[i] == hi else "either")
+                    continue
                 thr = lo + (hi - lo) * (ratio if not rnd else uvals[i])
                 # float32 rounding of (hi-lo)*u and of the sum is below 2^-24 (|hi-lo| + max(|lo|,|hi|)); 8x safety
                 if rnd and hi > lo and call.get("u") is None and \
                         abs(loss[i] - thr) <= Fraction(1, 2 ** 21) * ((hi - lo) + max(abs(lo), abs(hi))):
-                    margin_rows.append(i)     # float32 rounding of the drawn threshold can decide either way
-                expect_keep.append(loss[i] >= thr)
-            if margin_rows:
-                undecided = True
+                    expect.append("either")
+                    undecided = True
+                else:
+                    expect.append("keep" if loss[i] >= thr else "replace")
         org = []
         for i in range(n0):
-            if i in margin_rows:
-                org.append(prev_org[i] if same[i] and prev_org else (j, i))
-                continue
-            if expect_keep[i] and not same[i]:
+            if expect[i] == "keep" and not same[i]:
                 problems.append((j, f"adaptive call {j + 1}: row {i} has previous loss {loss[i]} >= threshold and must be kept, but it was replaced"))
-            if not expect_keep[i]:
-                if same[i]:
-                    why = "no loss was passed" if (prev is None or loss is None) else f"previous loss {loss[i]} is below the threshold"
-                    problems.append((j, f"adaptive call {j + 1}: row {i} must be replaced by a fresh point ({why}) but it was kept"))
-                else:
-                    if rows[i] in all_rows:
-                        problems.append((j, f"adaptive call {j + 1}: replacement for row {i} is not a fresh point (it was returned before)"))
-                    if not inside(rows[i]):
-                        problems.append((j, f"adaptive call {j + 1}: replacement for row {i} = {rows[i]} lies outside the domain"))
-                    if filt is not None and not rows[i][0] > 1.0:
-                        problems.append((j, f"adaptive call {j + 1}: replacement for row {i} = {rows[i]} violates the sampler's filter"))
-                    if draw is not None and tuple(draw[i].tolist()) != rows[i]:
-                        problems.append((j, f"adaptive call {j + 1}: replacement for row {i} is not row {i} of the fresh uniform sample"))
+            if expect[i] == "replace" and same[i]:
+                why = "no loss was passed" if (prev is None or loss is None) else f"previous loss {loss[i]} is below the threshold"
+                problems.append((j, f"adaptive call {j + 1}: row {i} must be replaced by a fresh point ({why}) but it was kept"))
+            if not same[i] and expect[i] != "keep":
+                if rows[i] in all_rows:
+                    problems.append((j, f"adaptive call {j + 1}: replacement for row {i} is not a fresh point (it was returned before)"))
+                if not inside(rows[i]):
+                    problems.append((j, f"adaptive call {j + 1}: replacement for row {i} = {rows[i]} lies outside the domain"))
+                if filt is not None and not rows[i][0] > 1.0:
+                    problems.append((j, f"adaptive call {j + 1}: replacement for row {i} = {rows[i]} violates the sampler's filter"))
+                if draw is not None and tuple(draw[i].tolist()) != rows[i]:
+                    problems.append((j, f"adaptive call {j + 1}: replacement for row {i} is not row {i} of the fresh uniform sample"))
             org.append(prev_org[i] if (same[i] and prev_org) else (j, i))
         all_rows.update(rows)
         texts.append(" ".join(f"{a}.{b}" for a, b in org))
         prev, prev_org = t, org
-    return dict(text=" | ".join(texts), problems=problems, calls=model_calls, n=n0, undecided=undecided)
+    return dict(text=" | ".join(texts), problems=problems, calls=model_calls, n=n0, undecided=undecided, unobserved=unobserved,
+                accepted_malformed=accepted_malformed)
 
 
 def _model_call(rnd, loss, uvals):
@@ -432,7 +445,7 @@ def gen_adaptive(rng, rnd):
             calls.append(None)
             continue
         m = n
-        if bad and j > 0 and rng.random() < 0.3:
+        if bad and j > 0 and (rng.random() < 0.3 or j == ncalls - 1):
             m = rng.choice([n + 1, n + 2, max(1, n - 1)])
         loss = _gen_loss(rng, m)
         call = dict(loss=loss)
@@ -450,6 +463,8 @@ def gen_adaptive(rng, rnd):
             else:
                 call["u"] = None
         calls.append(call)
+        if m != n:
+            break           # a malformed call ends the history
     case["calls"] = calls
     return case
 
@@ -533,9 +548,15 @@ def judge(rep, case, res, model_reply):
             rep.count("adaptive:wrong-length-loss")
         if res.get("undecided"):
             rep.count("adaptive-random:row-within-float32-margin (case not compared)")
+        if res.get("accepted_malformed"):
+            rep.count("adaptive:wrong-length-loss-not-rejected (outside the property, not judged)")
         model = model_reply
         what = f"adaptive history: drivers/C15.lean `{kind}` (TPV.SamplerState.adaptiveRun) vs row origins decoded from the real sampler's output"
-    if model is not None and not res.get("undecided") and res["text"] != model:
+    if res.get("unobserved"):
+        rep.count("adaptive-random:thresholds-not-observable")
+        rep.disagree(what + " -- the per-row random thresholds of the implementation could not be observed (no torch.rand_like / "
+                     "torch.rand draw of the shape of the loss vector)", case, res["text"], model)
+    elif model is not None and not res.get("undecided") and res["text"] != model:
         rep.disagree(what, case, res["text"], model)
     seen = set()
     for j, p in res["problems"]:
